@@ -19,7 +19,7 @@ InB == S0 \cup { SExpr(e) : e \in E0 }
 Inner == { SDef("b", nm, Opt(s)) : nm \in {"", "n"}, s \in InB \cup {None} }
 Item == InB \cup Inner
 Firsts == {None} \cup { SVar("x", TRUE, L1), SVar("y", FALSE, NoE), SVar("x", TRUE, Bin("+", Id("x"), L1)), SPrint(Id("x")) }
-Lasts == {None, SPrint(Id("x")), SPrint(Id("y")), SPrint(Bin("+", Id("x"), Id("y")))}
+Lasts == {None, SPrint(Id("x")), SPrint(Id("y")), SPrint(Bin("+", Id("x"), Id("y"))), SVar("x", TRUE, L2), SVar("y", FALSE, NoE)}
 
 \* ---- blocks family (C03): toplevel sequence of named/unnamed blocks of two types with fields, re-assignment, TYPE/NAME reads,
 \* nested blocks (duplicate child keys), a variable inside, and a failing statement after k completed blocks
